@@ -297,6 +297,7 @@ fn ttlcrash_run(report: &mut Report, seed: u64, rid: u64, dir: &str) -> Option<(
             // (1) TTL on, clock past every g2 expiry
             rcfg.ttl = true;
             feoxdb::verif::set_thread_now_ns(past);
+            let rmon = hub().watch(&ipath);
             let first = match storeutil::open(&rcfg, Some(&ipath)) {
                 Ok(s) => s,
                 Err(e) => {
@@ -304,6 +305,8 @@ fn ttlcrash_run(report: &mut Report, seed: u64, rid: u64, dir: &str) -> Option<(
                     return Some(("ttlcrash:reopen-failed".into(), format!("crash image cannot be reopened with TTL enabled: {e:?} ({})", crashimg::describe(&events, &recipe))));
                 }
             };
+            let revents = rmon.take_events();
+            hub().unwatch(&rmon);
             let d1 = storeutil::dump(&first);
             let mut state1 = Vec::new();
             for (i, k) in keys.iter().enumerate() {
@@ -326,6 +329,40 @@ fn ttlcrash_run(report: &mut Report, seed: u64, rid: u64, dir: &str) -> Option<(
             }
             let _ = d1;
             drop(first);
+            // (1b) crash inside THIS recovery's repair writes (TTL on), then recover again with TTL on:
+            // a key that was absent because its newest generation had expired must stay absent
+            if revents.iter().any(|e| matches!(e, Ev::W { .. })) {
+                let mut inner_cuts: Vec<usize> = (1..=revents.len()).collect();
+                if inner_cuts.len() > 6 {
+                    rng.shuffle(&mut inner_cuts);
+                    inner_cuts.truncate(6);
+                }
+                for c in inner_cuts {
+                    let rr = crashimg::recipes_for_cut(&revents, c, &mut rng, 1, 0).into_iter().last().unwrap_or(crashimg::Recipe { cut: c, keep: vec![], tear: None });
+                    let inner = crashimg::build(&image, &revents, &rr);
+                    let p2 = format!("{ipath}.inner{c}");
+                    std::fs::write(&p2, &inner).ok()?;
+                    let again = match storeutil::open(&rcfg, Some(&p2)) {
+                        Ok(s) => s,
+                        Err(e) => {
+                            feoxdb::verif::set_thread_now_ns(0);
+                            return Some(("ttlcrash:restart-failed".into(), format!("crash inside recovery's repair ({}), next open fails: {e:?}", crashimg::describe(&revents, &rr))));
+                        }
+                    };
+                    for (i, k) in keys.iter().enumerate() {
+                        if state1[i] == "absent" && again.get(k).map(|v| v == g1[i]).unwrap_or(false) {
+                            feoxdb::verif::set_thread_now_ns(0);
+                            return Some((
+                                "ttlcrash:restart-resurrects-older-generation".into(),
+                                format!("key {}: the first recovery (TTL on) reported it absent (expired newest generation); after a crash inside that recovery's repair writes ({}), the restarted recovery serves the OLDER generation", hex(k), crashimg::describe(&revents, &rr)),
+                            ));
+                        }
+                    }
+                    let _ = std::fs::remove_file(&p2);
+                    crate::engines::crash::REAPER.with_store(again);
+                    report.count("inner_recovery_crash_images", 1);
+                }
+            }
             // (2) the repaired file reopened with TTL disabled: nothing older may come back
             rcfg.ttl = false;
             let second = match storeutil::open(&rcfg, Some(&ipath)) {
